@@ -60,7 +60,9 @@ impl Property for C13 {
         // one case in a few thousand is a height field with more than 65536 vertices (index arithmetic in 32 bits)
         let big = (260usize..=330, 260usize..=330, unif(4.0, 8.0), any::<u64>(), (unif(0.05, 0.4), unif(0.5, 2.0), unif(0.5, 2.0)))
             .prop_map(|(nx, ny, s, diag, (amp, fx, fy))| MeshKind::Grid { nx, ny, sx: s, sy: s, jitter: 0.2, diag, height: Height::Waves { amp, fx, fy } });
-        let kind = prop_oneof![3000 => closed_kind(2), 2000 => open_kind(gmax), 1 => big].boxed();
+        // (the byte-level stage does not honour weights - coverage guidance would spend the whole campaign on the large
+        // family - so it decodes the same strategy without it; run_fuzz.sh sets VERIF_BYTE_LEVEL for target and re-decision alike)
+        let kind = if std::env::var("VERIF_BYTE_LEVEL").is_ok() { prop_oneof![3 => closed_kind(2), 2 => open_kind(gmax)].boxed() } else { prop_oneof![3000 => closed_kind(2), 2000 => open_kind(gmax), 1 => big].boxed() };
         (clean_mesh(kind, 10.0), unit3(), prop_oneof![8 => unif(-0.2, 1.2).prop_map(Offset::Fraction), 1 => any::<u16>().prop_map(Offset::ThroughVertex), 1 => (any::<u16>(), any::<u16>(), any::<u16>()).prop_map(|(a, b, c)| Offset::ThroughThree(a, b, c)), 1 => (any::<u16>(), unif(0.0, 3.1416)).prop_map(|(e, a)| Offset::ThroughEdge(e, a)), 1 => (any::<u16>(), prop_oneof![1 => Just(0.0), 2 => unif(0.0, 0.5)], unif(0.0, 6.2832)).prop_map(|(i, tilt, az)| Offset::TangentAtVertex(i, tilt, az))], iso3(10.0), any::<bool>())
             .prop_map(|(mut mesh, normal, offset, t, solid)| {
                 mesh.flip_all = false;
